@@ -382,6 +382,9 @@ func (fr *Frame) applyContract(ct *Contract, sig *types.Signature, names []strin
 		fr.bumpNow()
 	}
 	res := vc.freshVal("ret."+sanitize(calleeKey), rt)
+	if ct.Pure {
+		res = vc.pureResult(calleeKey, pre, args, rt)
+	}
 	fr.typed(res)
 	post := &Env{vc: vc, vars: map[string]Val{}, heap: fr.cur.heap, old: pre, now: fr.cur.now, pkg: env.pkg, what: env.what, oldNowT: env.now}
 	for k, v := range env.vars {
@@ -1022,4 +1025,28 @@ func (fr *Frame) invokeDispatch(c *ssa.CallCommon, impls []types.Type, recv Val,
 		out.L = append(out.L, t)
 	}
 	return fr.nameVal2("dispatch.ret", out)
+}
+
+// pureResult: the result of a pure function as an uninterpreted function of
+// (heap identity, arguments): deterministic in the same state, so the call in
+// the code, repeated calls and uses of the call inside contracts agree.
+func (vc *VC) pureResult(key string, h *Heap, args []Val, rt types.Type) Val {
+	hid := "0"
+	if !vc.valueOnly(args) && h != nil {
+		hid = fmt.Sprint(h.id)
+	}
+	as := []string{hid}
+	srt := []string{"Int"}
+	for _, a := range args {
+		for i, l := range a.L {
+			as = append(as, l)
+			srt = append(srt, vc.sortOf(a, i))
+		}
+	}
+	out := Val{Typ: rt}
+	for _, l := range vc.shape(rt) {
+		f := vc.declFun("pf_"+key+l.Suffix, srt, l.Sort)
+		out.L = append(out.L, "("+f+" "+joinSp(as)+")")
+	}
+	return out
 }
